@@ -224,6 +224,14 @@ func (proof *RangeProof) _computeRootHash() (rootHash []byte, treeEnd bool, err 
 	if len(proof.InnerNodes)+1 != len(proof.Leaves) {
 		return nil, false, errors.Wrap(ErrInvalidProof, "InnerNodes vs Leaves length mismatch, leaves should be 1 more.")
 	}
+	// A path node names the hash of one child only; ProofInnerNode.Hash ignores Right when Left is set.
+	for _, path := range append([]PathToLeaf{proof.LeftPath}, proof.InnerNodes...) {
+		for _, pin := range path {
+			if len(pin.Left) > 0 && len(pin.Right) > 0 {
+				return nil, false, errors.Wrap(ErrInvalidProof, "both left and right child hashes are set")
+			}
+		}
+	}
 
 	// Start from the left path and prove each leaf.
 
